@@ -20,6 +20,8 @@ one record `S`; a method that can raise returns `R` = the state at the point of 
 `Deferred` is modelled by what it does here: `respD` = result of the parser's `_responseDeferred` (once),
 `chained` = `_responseDeferred.chainDeferred(_finishedRequest)` was done, `fires` = every time the request
 Deferred `_finishedRequest` was fired (the property says: exactly one element).
+`S.qRaises` / `initQ`: the application's quiescent callback raises; `_finishResponse_WAITING` runs it under
+`failuresHandled`, logs, calls `transport.loseConnection()` and goes on to `_disconnectParser`.
 The model follows the code AS REPAIRED for C23 (`_finishResponse_ABORTING`; `_disconnectParser` and `abort`
 chain the Deferreds when the request is still being transmitted).
 -/
@@ -87,6 +89,7 @@ structure S where
   paused : Bool
   proxying : Bool
   quiet : Nat                   -- calls of the quiescent callback
+  qRaises : Bool                -- the quiescent callback raises (the protocol logs that and closes the connection)
   stopw : Nat                   -- `bodyProducer.stopProducing()` calls
   -- HTTPClientParser (+ LineReceiver)
   pstate : PState
@@ -125,10 +128,15 @@ def init (isHead persistent async deliverNow : Bool) : S :=
   { cstate := if async then .transmitting else .waiting, hasParser := true, persistent := persistent,
     isHead := isHead, reqPending := async, fires := [], chained := !async, excs := [],
     deliverNow := deliverNow, appDelivered := false,
-    disconnecting := false, aborted := false, paused := false, proxying := true, quiet := 0, stopw := 0,
+    disconnecting := false, aborted := false, paused := false, proxying := true, quiet := 0, qRaises := false,
+    stopw := 0,
     pstate := .status, buffer := [], lineMode := true, partialHeader := none, connHeaders := [],
     decoder := .none, everReceived := false, respD := none, code := 0,
     rstate := .initial, rbuffer := [], rreason := none, made := 0, delivered := [], lost := [] }
+
+/-- the same, with an application-supplied quiescent callback that raises iff `q` -/
+def initQ (isHead persistent async deliverNow q : Bool) : S :=
+  { init isHead persistent async deliverNow with qRaises := q }
 
 /-! ### bytes -/
 
@@ -427,7 +435,10 @@ def finishResponse (s : S) : R :=
     let s := if s.cstate = .waiting then { s with cstate := .quiescent } else chain { s with cstate := .tar }
     if !s.hasParser then .ok s
     else if hasClose s.connHeaders || s.cstate ≠ .quiescent || !s.persistent then giveUp s .connectionDone
-    else disconnectParser { s with paused := false, quiet := s.quiet + 1 } .connectionDone
+    else
+      -- `resumeProducing()`; the quiescent callback; `if op.failed: self.transport.loseConnection()`
+      disconnectParser { s with paused := false, quiet := s.quiet + 1, disconnecting := s.disconnecting || s.qRaises }
+        .connectionDone
   | .aborting => .ok s
   | _ => .raise .runtimeError s
 
